@@ -9,7 +9,7 @@ resolution; unit header wiring; CompileUnit/TypeUnit sibling agreement.
 import ast
 import copy
 from sa.world import get_world
-from sa import dwconf, layout, expr, paths, streams, dispatch, literals, hrules
+from sa import dwconf, layout, expr, paths, streams, dispatch, literals, hrules, owner
 from sa.absint import FuncV, Unknown, Node
 from sa.report import AnalysisError
 from spec import dwarf as D
@@ -44,8 +44,10 @@ def run(ctx):
                  ('W-DIE', '_parse_DIE structure'), ('G-TRANS', 'value translation table'), ('I-WIDTH', 'format-selected widths are 4/8'),
                  ('E-i', 'cursor/extent/reference formulas'), ('SIB', 'sibling implementations agree'),
                  ('W-UNIT', 'unit header wiring'), ('H-CUR', 'cursor discipline'), ('G-LIT', 'enum literals defined'),
-                 ('R-INV', 'reverse form map')):
+                 ('R-INV', 'reverse form map'), ('G-OWNER', 'size-dependent facts are read from the unit that owns the data')):
         ctx.rule(r, d)
+    ctx.guard('G-OWNER', 'owners', owner.gowner, ctx, w, ('dwarf/die.py', 'dwarf/dwarfinfo.py', 'dwarf/dwarf_util.py'))
+    ctx.floor('G-OWNER', 9)
     configs = dwconf.CONFIGS_QUICK
     ctx.guard('L-CONF', 'Dwarf_CU_header', dwconf.check_struct, ctx, w, 'Dwarf_CU_header', D.cu_header, D.cu_cases(), configs)
     ctx.guard('L-CONF', 'Dwarf_TU_header', dwconf.check_struct, ctx, w, 'Dwarf_TU_header', D.TU_HEADER, ({},), configs)
@@ -444,16 +446,7 @@ def check_refs(ctx, w):
     tr = expr.assign_trace(g.node, genv)
     ctx.ob('E-i', g.construct, 'unit = get_CU_containing(refaddr) when not given', rets == ['get_DIE_from_refaddr(cu,refaddr)'] and
            tr.get('cu') == [('=', 'get_CU_containing(self,refaddr)')], got=(rets, tr.get('cu')))
-    # section-relative references: the unit whose extent [cu_offset, cu_offset + size) contains the target (shared with C13)
-    h = w.model.func(DI, 'DWARFInfo.get_CU_containing')
-    henv = expr.FEnv(h.node, params=('refaddr',), inline=False)
-    tests = [n for n in ast.walk(h.node) if isinstance(n, ast.If)]
-    eq = False
-    if tests:
-        eq, cex, n = expr.tt_equiv(expr.cond_tt(tests[0].test, henv), expr.spec_tt('cu_offset <= refaddr < cu_offset + size'))
-    ctx.ob('E-i', h.construct, 'unit found iff cu_offset <= refaddr < cu_offset + size (size includes the initial length field)', eq,
-           msg='a section-relative reference into the last bytes of a unit must still resolve to that unit')
-    ctx.ob('E-i', h.construct, 'extent uses the unit size property', 'cu.cu_offset + cu.size' in ast.unparse(h.node))
+    check_cu_containing(ctx, w, 'E-i')
     for mod, cls, off, dof in ((CU, 'CompileUnit', 'cu_offset', 'cu_die_offset'), (TU, 'TypeUnit', 'tu_offset', 'tu_die_offset')):
         g = w.model.func(mod, cls + '.get_DIE_from_refaddr')
         genv = expr.FEnv(g.node, params=('refaddr',))
@@ -464,6 +457,29 @@ def check_refs(ctx, w):
         g = w.model.func(mod, cls + '.size')
         rets = [expr.nfs(r.value, expr.FEnv(g.node)) for r in expr.returns_of(g.node)]
         ctx.ob('E-i', g.construct, 'extent = unit_length + initial length size', rets == [expr.spec_nf('unit_length + structs.initial_length_field_size()')], got=rets)
+
+
+def check_cu_containing(ctx, w, rule):
+    """section-relative references: the unit whose extent [cu_offset, cu_offset + size) contains the target.  Shared with
+    C13 (lookup tables hand out unit offsets) and C10 (the walk starts at the nearest cached unit, so only a half-open
+    extent test gives the same unit whatever was cached before)."""
+    h = w.model.func(DI, 'DWARFInfo.get_CU_containing')
+    henv = expr.FEnv(h.node, params=('refaddr',), inline=False)
+    tests = [n for n in ast.walk(h.node) if isinstance(n, ast.If)]
+    eq = False
+    if tests:
+        eq, cex, n = expr.tt_equiv(expr.cond_tt(tests[0].test, henv), expr.spec_tt('cu_offset <= refaddr < cu_offset + size'))
+    ctx.ob(rule, h.construct, 'unit found iff cu_offset <= refaddr < cu_offset + size (size includes the initial length field)', eq,
+           msg='a section-relative reference into the last bytes of a unit must still resolve to that unit, and the first offset of the next '
+               'unit must not: with an inclusive end the answer depends on which unit the walk starts from, i.e. on what was cached before')
+    # both bounds are properties of the unit the loop is looking at
+    loops = [n for n in ast.walk(h.node) if isinstance(n, ast.For) and isinstance(n.target, ast.Name)]
+    ok = False
+    if loops and tests:
+        v = loops[0].target.id
+        attrs = set(x.attr for x in ast.walk(tests[0].test) if isinstance(x, ast.Attribute) and isinstance(x.value, ast.Name) and x.value.id == v)
+        ok = attrs == {'cu_offset', 'size'}
+    ctx.ob(rule, h.construct, 'extent bounds are cu_offset and size of the unit under test', ok)
 
 
 def _norm_method(node, ren):
@@ -550,6 +566,9 @@ def check_unit(ctx, w):
 
 
 MUTANTS = [
+    ('strx-container-format', 'dwarf/die.py', "            offset_size = 4 if self.cu.structs.dwarf_format == 32 else 8", "            offset_size = 4 if self.dwarfinfo.structs.dwarf_format == 32 else 8", 'G-OWNER'),
+    ('strx-container-width', 'dwarf/die.py', "            str_offset = struct_parse(self.cu.structs.the_Dwarf_offset, stream,", "            str_offset = struct_parse(self.dwarfinfo.structs.the_Dwarf_offset, stream,", 'G-OWNER'),
+    ('cu-iter-container-initlen', 'dwarf/dwarfinfo.py', "                      cu.structs.initial_length_field_size())", "                      self.structs.initial_length_field_size())", 'G-OWNER'),
     ('strx4-u64', ST, "DW_FORM_strx4=self.the_Dwarf_uint32,", "DW_FORM_strx4=self.Dwarf_uint64(''),", 'G-SIG'),
     ('data2-u8', ST, "DW_FORM_data2=self.the_Dwarf_uint16,", "DW_FORM_data2=self.the_Dwarf_uint8,", 'G-SIG'),
     ('v5-swap-back', ST, "dwarfv5_CP_CU_header = Struct('',                  \n            self.Dwarf_uint8('address_size'),\n            self.Dwarf_offset('debug_abbrev_offset')", "dwarfv5_CP_CU_header = Struct('',                  \n            self.Dwarf_offset('debug_abbrev_offset'),\n            self.Dwarf_uint8('address_size')", 'L-CONF'),
